@@ -105,6 +105,11 @@ def transfer(I, fr, t, c, pth):
                 a = fr._project(fr.store.get(a.root, TOP), a.proj)
             if isinstance(b, exp.Ref):
                 b = fr._project(fr.store.get(b.root, TOP), b.proj)
+        if isinstance(a, Poly) and isinstance(b, Poly) and (a.is_zero() or b.is_zero()) and not (a.is_zero() and b.is_zero()):
+            # `x == F::zero()` is the zero test of x
+            key = ('pzero', b if a.is_zero() else a)
+            fr.storev(t['dest'], ('bool', key if nm == 'eq' else ('not', key)))
+            return True
         if isinstance(a, Poly) and isinstance(b, Poly):
             key = ('peq', a.add(b, -1))
             fr.storev(t['dest'], ('bool', key if nm == 'eq' else ('not', key)))
